@@ -90,7 +90,7 @@ var (
 		Methods:  allEngineMethods,
 		MinRules: 1, MaxRules: 6, SalSpan: 2,
 		Secs:    map[int]int{SecY: 2, SecCall: 2, SecAsgKind: 1, SecStrayBreak: 1, SecForCall: 1},
-		MaxSecs: 2, Rets: []int{RetNone, RetNestedV, RetNestedV, RetNestedB, RetLoop, RetTop, RetTopB, RetKind, RetTopKind, RetElse, RetReq, RetUnexp, RetForRange, RetElseIf, RetBreak, RetContinue},
+		MaxSecs: 2, Rets: []int{RetNone, RetNestedV, RetNestedV, RetNestedB, RetLoop, RetTop, RetTopB, RetKind, RetTopKind, RetElse, RetReq, RetUnexp, RetForRange, RetElseIf, RetBreak, RetContinue, RetTopLoop},
 		FaultPct: 45, FaultKinds: map[int]bool{SecCall: true, SecAsgKind: true, SecForCall: true, -1: true}, GatePct: 10, RetPct: 65, MinCalls: 4, MaxCalls: 14, UnknownNamePct: 15, BadNMPct: 5, EvolvePct: 20,
 	}
 	ProfC12 = &Profile{
@@ -141,7 +141,7 @@ var (
 	}
 	ProfC06 = &Profile{
 		MinRules: 1, MaxRules: 4, SalSpan: 1,
-		Secs:    map[int]int{SecY: 4, SecEcho: 4, SecOpt: 3, SecCall: 1, SecLocal: 2, SecReader: 1, SecIfNil: 1, SecIfKind: 1, SecFnArgKind: 1, SecApiSet: 2, SecForAcc: 1, SecOptFn: 3},
+		Secs:    map[int]int{SecY: 4, SecEcho: 4, SecOpt: 3, SecCall: 1, SecLocal: 2, SecReader: 1, SecIfNil: 1, SecIfKind: 1, SecFnArgKind: 1, SecApiSet: 2, SecForAcc: 1, SecOptFn: 3, SecThreeArith: 2},
 		MaxSecs: 4, Rets: []int{RetNone, RetReq, RetReq, RetNestedV},
 		FaultPct: 20, GatePct: 60, RetPct: 70, UnknownNamePct: 10, BadNMPct: 5,
 	}
